@@ -3,6 +3,7 @@
 #include "engine.h"
 #include <cassert>
 #include <csignal>
+#include <ucontext.h>
 #include <cstdlib>
 #include <map>
 #include <pthread.h>
@@ -281,11 +282,50 @@ static void *volatile g_ls_addr = nullptr;
 static struct sigaction g_old_segv;
 static bool g_segv_installed = false;
 
+// Reads without the lock are legitimate for fields that never change after cat_init (the library looks at
+// self->mutex before it can lock): such a read is let through by single-stepping the one instruction with the
+// pages open, the bytes it may have covered are remembered, and every time the lock is released those bytes must
+// still hold what cat_init left there. A write without the lock, or a read of the working buffers, is a fault
+// at once. Nothing here depends on the layout of struct cat_object.
+static unsigned char *g_obj_p = nullptr;
+static size_t g_obj_len = 0;
+static unsigned char g_obj_init[1024];
+static unsigned char g_unlocked_read[1024]; // per byte of the object: read while the lock was not held
+static volatile sig_atomic_t g_unlocked_reads = 0;
+static volatile sig_atomic_t g_stepping = 0;
+
+static void ls_verify_unlocked_reads()
+{
+        if (!g_unlocked_reads || !g_obj_p)
+                return;
+        for (size_t i = 0; i < g_obj_len; i++)
+                if (g_unlocked_read[i] && g_obj_p[i] != g_obj_init[i]) {
+                        g_ls_fault = g_ls_fault + 1;
+                        if (!g_ls_addr)
+                                g_ls_addr = g_obj_p + i;
+                        g_unlocked_read[i] = 0; // report once
+                }
+}
+
 static void segv_handler(int sig, siginfo_t *si, void *ctx)
 {
-        (void)ctx;
+        ucontext_t *uc = (ucontext_t *)ctx;
         unsigned char *a = (unsigned char *)si->si_addr;
         if (g_prot_p && a >= g_prot_p && a < g_prot_p + g_prot_len) {
+                bool is_write = (uc->uc_mcontext.gregs[REG_ERR] & 2) != 0;
+                bool in_obj = g_obj_p && a >= g_obj_p && a < g_obj_p + g_obj_len;
+                if (!is_write && in_obj && g_obj_len <= sizeof g_obj_init) {
+                        // up to the end of the aligned 8-byte word the access starts in
+                        size_t off = (size_t)(a - g_obj_p);
+                        size_t end = std::min(g_obj_len, (off | 7) + 1);
+                        for (size_t i = off; i < end; i++)
+                                g_unlocked_read[i] = 1;
+                        g_unlocked_reads = g_unlocked_reads + 1;
+                        g_stepping = 1;
+                        mprotect(g_prot_p, g_prot_len, PROT_READ | PROT_WRITE);
+                        uc->uc_mcontext.gregs[REG_EFL] |= 0x100; // trap after this one instruction
+                        return;
+                }
                 // access to parser state without the lock: remember it and let the run continue
                 g_ls_fault = g_ls_fault + 1;
                 if (!g_ls_addr)
@@ -298,6 +338,144 @@ static void segv_handler(int sig, siginfo_t *si, void *ctx)
         raise(sig);
 }
 
+static void trap_handler(int sig, siginfo_t *si, void *ctx)
+{
+        (void)sig;
+        (void)si;
+        ucontext_t *uc = (ucontext_t *)ctx;
+        uc->uc_mcontext.gregs[REG_EFL] &= ~(greg_t)0x100;
+        if (g_stepping) {
+                g_stepping = 0;
+                ls_verify_unlocked_reads(); // the bytes just read must be what cat_init left there
+                if (g_prot_p)
+                        mprotect(g_prot_p, g_prot_len, PROT_NONE);
+        }
+}
+
+static void install_ls_handlers()
+{
+        if (g_segv_installed)
+                return;
+        struct sigaction sa;
+        memset(&sa, 0, sizeof sa);
+        sa.sa_sigaction = segv_handler;
+        sa.sa_flags = SA_SIGINFO | SA_NODEFER;
+        sigaction(SIGSEGV, &sa, &g_old_segv);
+        struct sigaction st;
+        memset(&st, 0, sizeof st);
+        st.sa_sigaction = trap_handler;
+        st.sa_flags = SA_SIGINFO;
+        sigaction(SIGTRAP, &st, nullptr);
+        g_segv_installed = true;
+}
+
+// Where does the library read the object without the lock? Found once per process by running the real cat.c on a
+// throw-away object that is protected as a whole (reads single-stepped as above). If all such bytes lie at the
+// beginning or at the end of struct cat_object, the object is placed so that they sit on an unprotected page and
+// the ordinary runs never fault there; otherwise the whole object stays protected and the stepping does the work.
+static int g_cal_mode = -1; // -1 not calibrated, 0 whole object protected, 1 prefix [0,split) open, 2 suffix [split,size) open
+static size_t g_cal_split = 0;
+static int cal_lock(void)
+{
+        mprotect(g_prot_p, g_prot_len, PROT_READ | PROT_WRITE);
+        return 0;
+}
+static int cal_unlock(void)
+{
+        mprotect(g_prot_p, g_prot_len, PROT_NONE);
+        return 0;
+}
+static int cal_read(char *c)
+{
+        (void)c;
+        return 0;
+}
+static int cal_write(char c)
+{
+        (void)c;
+        return 1;
+}
+static cat_return_state cal_run(const struct cat_command *c)
+{
+        (void)c;
+        return CAT_RETURN_STATE_OK;
+}
+static void ls_calibrate(size_t pg)
+{
+        g_cal_mode = 0;
+        g_cal_split = 0;
+        if (sizeof(struct cat_object) > sizeof g_obj_init)
+                return;
+        static uint8_t cbuf[64];
+        static struct cat_command ccmd[1];
+        static struct cat_command_group cgrp;
+        static struct cat_command_group *cgrps[1];
+        static struct cat_descriptor cdesc;
+        static struct cat_io_interface cio;
+        static struct cat_mutex_interface cmtx;
+        memset(ccmd, 0, sizeof ccmd);
+        ccmd[0].name = "+CAL";
+        ccmd[0].run = cal_run;
+        memset(&cgrp, 0, sizeof cgrp);
+        cgrp.cmd = ccmd;
+        cgrp.cmd_num = 1;
+        cgrps[0] = &cgrp;
+        memset(&cdesc, 0, sizeof cdesc);
+        cdesc.cmd_group = cgrps;
+        cdesc.cmd_group_num = 1;
+        cdesc.buf = cbuf;
+        cdesc.buf_size = sizeof cbuf;
+        cio.read = cal_read;
+        cio.write = cal_write;
+        cmtx.lock = cal_lock;
+        cmtx.unlock = cal_unlock;
+        struct cat_object *o = (struct cat_object *)(g_arena + pg);
+        g_prot_p = g_arena + pg;
+        g_prot_len = pg;
+        g_obj_p = nullptr;
+        g_obj_len = sizeof(struct cat_object);
+        g_unlocked_reads = 0;
+        memset(g_unlocked_read, 0, sizeof g_unlocked_read);
+        g_ls_fault = 0;
+        g_ls_addr = nullptr;
+        cat_init(o, &cdesc, &cio, &cmtx);
+        memcpy(g_obj_init, o, sizeof(struct cat_object));
+        g_obj_p = (unsigned char *)o;
+        mprotect(g_prot_p, g_prot_len, PROT_NONE);
+        for (int i = 0; i < 4; i++)
+                cat_service(o);
+        cat_is_busy(o);
+        cat_is_hold(o);
+        cat_trigger_unsolicited_event(o, &ccmd[0], CAT_CMD_TYPE_READ);
+        cat_is_unsolicited_buffer_full(o);
+        for (int i = 0; i < 6; i++)
+                cat_service(o);
+        cat_hold_exit(o, CAT_STATUS_OK);
+        mprotect(g_prot_p, g_prot_len, PROT_READ | PROT_WRITE);
+        size_t lo = sizeof(struct cat_object), hi = 0;
+        for (size_t i = 0; i < sizeof(struct cat_object); i++)
+                if (g_unlocked_read[i]) {
+                        lo = std::min(lo, i & ~(size_t)7);
+                        hi = std::max(hi, (i | 7) + 1);
+                }
+        if (hi != 0 && g_ls_fault == 0) {
+                if (hi <= sizeof(struct cat_object) / 2) {
+                        g_cal_mode = 1;
+                        g_cal_split = hi;
+                } else if (lo >= sizeof(struct cat_object) / 2) {
+                        g_cal_mode = 2;
+                        g_cal_split = lo;
+                }
+        }
+        g_prot_p = nullptr;
+        g_prot_len = 0;
+        g_obj_p = nullptr;
+        g_unlocked_reads = 0;
+        memset(g_unlocked_read, 0, sizeof g_unlocked_read);
+        g_ls_fault = 0;
+        g_ls_addr = nullptr;
+}
+
 void Engine::ls_protect(bool on)
 {
         if (!ls_on)
@@ -306,6 +484,8 @@ void Engine::ls_protect(bool on)
                 return;
         ls_protected_now = on;
         es.lockset_switches++;
+        if (on && g_unlocked_reads)
+                ls_verify_unlocked_reads(); // (the pages are open at this point: the lock is being released)
         mprotect(g_prot_p, g_prot_len, on ? PROT_NONE : (PROT_READ | PROT_WRITE));
 }
 
@@ -1033,10 +1213,16 @@ void Engine::materialise()
                         if (g_arena == MAP_FAILED)
                                 g_arena = nullptr;
                 }
-                if (!g_arena || need > g_arena_len)
+                if (!g_arena || need + pg > g_arena_len)
                         ls_on = false;
-                else
-                        arena_used = pg - peek_mutable_offset() + sizeof(struct cat_object);
+                else {
+                        if (g_cal_mode < 0) {
+                                install_ls_handlers();
+                                ls_calibrate(pg);
+                        }
+                        // buffers are carved from arena_used upwards
+                        arena_used = g_cal_mode == 1 ? pg - g_cal_split + sizeof(struct cat_object) : g_cal_mode == 2 ? pg : pg + sizeof(struct cat_object);
+                }
         }
         size_t n = plan.cmds.size();
         vars.resize(n);
@@ -1143,25 +1329,27 @@ void Engine::materialise()
         mtx.lock = m_lock;
         mtx.unlock = m_unlock;
         if (ls_on) {
-                // object placed so that its three configuration pointers end page 0 and all mutable
-                // fields start page 1; the buffers were carved right behind it
-                size_t off = peek_mutable_offset();
+                // placement by calibration (ls_calibrate): the bytes the library reads without the lock end up on an
+                // unprotected page when they form a prefix or a suffix of the object; the buffers are protected always
                 objblk.base = g_arena;
                 objblk.mapped = true;
-                objblk.p = g_arena + pg - off;
+                g_prot_p = g_arena + pg;
+                if (g_cal_mode == 2) {
+                        size_t e = ((arena_used + 16 + g_cal_split + pg - 1) / pg) * pg; // end of the protected pages
+                        objblk.p = g_arena + e - g_cal_split;
+                        g_prot_len = e - pg;
+                } else {
+                        objblk.p = g_cal_mode == 1 ? g_arena + pg - g_cal_split : g_arena + pg;
+                        g_prot_len = ((arena_used - pg + pg - 1) / pg) * pg;
+                }
                 objblk.size = sizeof(struct cat_object);
                 for (size_t i = 0; i < sizeof(struct cat_object); i++)
                         objblk.p[i] = (unsigned char)fillrng.next();
-                g_prot_p = g_arena + pg;
-                g_prot_len = ((arena_used - pg + pg - 1) / pg) * pg;
-                if (!g_segv_installed) {
-                        struct sigaction sa;
-                        memset(&sa, 0, sizeof sa);
-                        sa.sa_sigaction = segv_handler;
-                        sa.sa_flags = SA_SIGINFO | SA_NODEFER;
-                        sigaction(SIGSEGV, &sa, &g_old_segv);
-                        g_segv_installed = true;
-                }
+                install_ls_handlers();
+                g_obj_p = nullptr; // set once cat_init has run
+                g_obj_len = sizeof(struct cat_object);
+                g_unlocked_reads = 0;
+                memset(g_unlocked_read, 0, sizeof g_unlocked_read);
                 g_ls_fault = 0;
                 g_ls_addr = nullptr;
         } else {
@@ -1187,6 +1375,10 @@ void Engine::materialise()
                         VALGRIND_MAKE_MEM_UNDEFINED(ubufblk.p, ubufblk.size);
         }
         cat_init(obj, &desc, &io, plan.mutex ? &mtx : nullptr);
+        if (ls_on && sizeof(struct cat_object) <= sizeof g_obj_init) {
+                memcpy(g_obj_init, obj, sizeof(struct cat_object));
+                g_obj_p = (unsigned char *)obj;
+        }
         ls_protect(true);
 }
 
@@ -1706,6 +1898,8 @@ void Engine::exec(const Op &o)
                 if (on_valgrind)
                         VALGRIND_MAKE_MEM_UNDEFINED(obj, sizeof(struct cat_object));
                 cat_init(obj, &desc, &io, plan.mutex ? &mtx : nullptr);
+                if (ls_on && g_obj_p)
+                        memcpy(g_obj_init, obj, sizeof(struct cat_object));
                 ls_protect(true);
                 std::fill(sp.begin(), sp.end(), (size_t)0);
                 mon.on_fresh();
